@@ -131,9 +131,9 @@ def plan(tier):
     q = tier == "quick"
     specs = []
     for i in range(16):
-        specs.append({"mode": "stream", "n": 1500 if q else 60000, "leaves": 12 if q else 25, "str": 40 if q else 200})
+        specs.append({"mode": "stream", "n": 1500 if q else 30000, "leaves": 12 if q else 25, "str": 40 if q else 200})
     for i in range(8):
-        specs.append({"mode": "doc", "n": 300 if q else 12000, "leaves": 10 if q else 20, "str": 40 if q else 200})
+        specs.append({"mode": "doc", "n": 300 if q else 6000, "leaves": 10 if q else 20, "str": 40 if q else 200})
     if not q:
         for i in range(4):
             specs.append({"mode": "stream", "n": 300, "leaves": 1, "str": 20, "deep": True})
